@@ -30,7 +30,8 @@ def apply_sites(ctx):
 
 def run(ctx, rep):
     # ------------------------------------------------------------ R11.a
-    rep.rule('R11.a', 'every journal append is serialised by the exclusive system lock (write guard, or downgraded from it in the same function, or &mut System)', floor=39, analysis='A4')
+    rep.rule('R11.a', 'every journal append is serialised: FileState::apply holds its own mutex from index allocation to the end of the append, or every caller holds the exclusive system lock (write guard / downgraded in the same function / &mut System)', floor=39, analysis='A4')
+    internal, how_int = apply_is_self_serialised(ctx)
     for d, b, c in apply_sites(ctx):
         recv = b.expr_operand(c.args[0])
         kind = system_guard_kind(recv)
@@ -38,13 +39,15 @@ def run(ctx, rep):
         ok = kind in ('write', 'downgraded')
         how = kind
         if kind is None:
-            # journalling from inside System: exclusive iff the enclosing method has &mut self
             rec = ctx.fn_record(fn)
             if rec and rec['params'] and rec['params'][0].startswith('&mut ' + SYS):
                 ok, how = True, '&mut System'
             else:
                 how = 'no system guard in receiver `%s`' % render(recv)
+        if not ok and internal:
+            ok, how = True, '%s; serialised inside FileState::apply (%s)' % (how, how_int)
         rep.ob('R11.a', fn, 'apply', ok, c.where(), 'journal append under lock context: %s' % how)
+    rep.ob('R11.a', FILESTATE_APPLY, 'self-serialised', True, None, 'FileState::apply %s' % (how_int if internal else 'does not serialise itself: callers must hold the exclusive system lock'))
 
     # ------------------------------------------------------------ R11.b / R11.c in FileState::apply
     rep.rule('R11.b', 'a failed append does not consume a journal index (counters advance only on the success edge of the append, or are compensated on its failure edge)', floor=2, analysis='A2')
@@ -75,21 +78,21 @@ def run(ctx, rep):
                     detail = '`%s` is advanced before persister.append and not restored when the append fails: the next entry skips an index and the journal no longer loads' % field
             rep.ob('R11.b', FILESTATE_APPLY, field, ok, c.where(), detail)
         # R11.c
-        loads = [c for c in b.calls if c.matches('std::sync::atomic::Atomic::load') and b.expr_operand(c.args[0])[:3] == ('field', ('param', 'self'), 'entries_count')
-                 or (c.matches('std::sync::atomic::Atomic::load') and render(b.expr_operand(c.args[0])).endswith('.entries_count'))]
+        loads = [c for c in b.calls if c.matches('std::sync::atomic::Atomic::load') and render(b.expr_operand(c.args[0])).endswith('.entries_count')]
         incs = [c for c in b.calls if (c.matches('std::sync::atomic::Atomic::fetch_add') or c.matches('std::sync::atomic::Atomic::store'))
                 and render(b.expr_operand(c.args[0])).endswith('.current_index')]
         if not loads or not incs:
             rep.anchor_lost('R11.c', 'entries_count.load / current_index advance in FileState::apply')
         else:
             ld = loads[0]
+            internal, how_int = apply_is_self_serialised(ctx)
             for inc in incs:
-                between = b.reachable(ld.bb) & {x for x in b.reach if inc.bb in b.reachable(x)}
-                # only blocks on paths load -> inc that do not pass inc first
                 between = b.reachable(ld.bb, avoid_blocks={inc.bb}) & {x for x in b.reach if inc.bb in b.reachable(x)}
                 ys = [x for x in between if b.term(x).get('t') == 'yield']
-                rep.ob('R11.c', FILESTATE_APPLY, 'alloc', not ys, inc.where(),
-                       'no await between the emptiness test and the index advance' if not ys else 'suspension point at %s between reading entries_count and advancing current_index' % b.where(ys[0]))
+                ok = not ys or internal
+                rep.ob('R11.c', FILESTATE_APPLY, 'alloc', ok, inc.where(),
+                       ('no await between the emptiness test and the index advance' if not ys else 'suspension points in between are covered: ' + how_int) if ok else
+                       'suspension point at %s between reading entries_count and advancing current_index, and no mutex is held across it' % b.where(ys[0]))
 
     rule_index_seeding(ctx, rep, 'R11.h')
 
@@ -210,6 +213,45 @@ def run(ctx, rep):
                    bad + ': tokio::fs::File finishes the write in a background task after the handle is dropped, so two consecutive journal appends (each opening its own handle) can reach the file in the opposite order and a write error is lost')
 
 
+def apply_is_self_serialised(ctx):
+    """FileState::apply owns a MutexGuard local that is created before the first counter access and not dropped before the last"""
+    b = ctx.fn_body(FILESTATE_APPLY)
+    guards = [l for l, ty in enumerate(b.locals) if 'MutexGuard<' in ty and not ty.startswith('&') and 'Poll<' not in ty and 'Option<' not in ty]
+    counters = [c for c in b.calls if c.name.startswith('std::sync::atomic::Atomic::') and any(render(b.expr_operand(c.args[0])).endswith(s_) for s_ in ('.entries_count', '.current_index'))]
+    appends = [c for c in b.calls if c.matches('server::streaming::persistence::persister::PersisterKind::append')]
+    if not guards or not counters or not appends:
+        return False, 'holds no mutex guard'
+    for g in guards:
+        defs = [x for x in b.defs.get(g, []) if x[2]]
+        if len(defs) != 1:
+            continue
+        gb = defs[0][0]
+        # the guard value must come from awaiting Mutex::lock on a field of self
+        e = b.expr_local(g)
+        if not (expr_has_call(e, 'tokio::sync::Mutex::lock') and any(x[0] == 'field' and x[3] == FS for x in walk(e))):
+            continue
+        if not all(b.dominates(gb, c.bb) for c in counters + appends):
+            continue
+        # no drop of the guard on a path from its creation to any counter access / the append
+        drops = {x for x in b.reach if b.term(x).get('t') == 'drop' and b.term(x)['p'] == [g]}
+        moved = False
+        for x in b.reach:
+            for st in b.stmts(x):
+                rv = st.get('rv') or {}
+                for op in ([rv.get('a')] if rv.get('a') else []) + rv.get('ops', []):
+                    if op and op.get('m') == [g]:
+                        moved = True
+        if moved:
+            continue
+        early = False
+        for c in counters + appends:
+            if c.bb not in b.reachable(gb, avoid_blocks=drops):
+                early = True
+        if not early:
+            return True, 'holds the mutex `%s` from before the first counter access until after the last counter update and the append' % render(e)[:60]
+    return False, 'holds no mutex guard across index allocation and append'
+
+
 def rule_loader_checks(ctx, rep, rid):
     # ------------------------------------------------------------ R11.d loader continuity + checksum
     rep.rule(rid, 'the loader pushes an entry only after index continuity and checksum equality were tested; the failing edges return an error', floor=2, analysis='A2+A3')
@@ -297,21 +339,27 @@ def rule_index_seeding(ctx, rep, rid):
             ok = v[0] == 'call' and v[1].split('::')[-1] == 'len' and expr_has_call(v, 'load_entries')
             rep.ob(rid, FILESTATE_INIT, 'seed-count', ok, c.where(), 'entries_count = number of loaded entries' if ok else 'entries_count is not seeded with the number of loaded entries: %s' % render(v)[:120])
     b_off = None
-    fa = [c for c in b.calls if c.matches('std::sync::atomic::Atomic::fetch_add') and b.expr_operand(c.args[0])[:3:2] == ('field', 'current_index')]
-    if fa:
-        # how is the result used: find the named `index` value = fetch_add (+1)?
-        for blk in sorted(b.reach):
-            for st in b.stmts(blk):
-                rv = st.get('rv')
-                if not rv:
-                    continue
-                e = b._expr_rvalue(rv, 0, frozenset())
-                if e[0] == 'bin' and e[1] == 'Add' and e[2][0] == 'call' and e[2][3] == fa[0].bb and is_const(e[3]):
-                    b_off = int(e[3][1])
-        if b_off is None:
+    # the index handed to StateEntry::new: current_index.{load|fetch_add(1)}() + b   (| 0 for an empty journal)
+    from mir import canon
+    import re as _re
+    ne = [c for c in b.calls if c.name.endswith('StateEntry::new')]
+    if ne:
+        f = canon(b.pexpr_operand(ne[0].args[0]), 0, 2)
+        m = _re.search(r'\((\d+) \+ Atomic::(load|fetch_add)\(self\.current_index', f)
+        if m:
+            b_off = int(m.group(1))
+        elif _re.search(r'Atomic::(load|fetch_add)\(self\.current_index', f):
             b_off = 0
-        if not is_const(b.expr_operand(fa[0].args[1]), 1):
-            b_off = None
+        # after a successful append the counter must hold the allocated index (store(index)) or have been advanced by fetch_add(1)
+        adv = [c for c in b.calls if (c.matches('std::sync::atomic::Atomic::fetch_add') or c.matches('std::sync::atomic::Atomic::store')) and render(b.expr_operand(c.args[0])).endswith('.current_index')]
+        for c in adv:
+            v = canon(b.pexpr_operand(c.args[1]), 0, 2)
+            if c.name.endswith('store'):
+                okv = v == f
+            else:
+                okv = v == '1'
+            rep.ob(rid, FILESTATE_APPLY, 'counter holds the allocated index', okv, c.where(),
+                   'current_index := the index just written' if okv else 'current_index is advanced to `%s`, which is not the index that was written (`%s`)' % (v, f))
     if not a_off or b_off is None:
         rep.anchor_lost(rid, 'index seeding in init / allocation in apply')
     for off, c in a_off:
